@@ -229,7 +229,7 @@ func trimCase(c hcase) hcase {
 // generators
 
 func c04ValidSession(r *rand.Rand) []wire.Req {
-	paths := []string{"/", "/file.bin", "/big.bin", "/dir", "/dir/a.txt", "/nope", "/***DVD***/dir", "/***PS3***/game", "/PS3ISO/enc.iso", "/CLOSEFILE", "/sparse9g.bin", "/k3/enc3k3y.iso"}
+	paths := []string{"/PS3ISO/tail.iso", fmt.Sprintf("/PS3ISO/many%02d.iso", r.Intn(64)), fmt.Sprintf("/PS3ISO/many%02d.iso", r.Intn(64)), "/", "/file.bin", "/big.bin", "/dir", "/dir/a.txt", "/nope", "/***DVD***/dir", "/***PS3***/game", "/PS3ISO/enc.iso", "/CLOSEFILE", "/sparse9g.bin", "/k3/enc3k3y.iso"}
 	var reqs []wire.Req
 	for i := 0; i < 3+r.Intn(12); i++ {
 		switch r.Intn(10) {
@@ -319,6 +319,17 @@ func c04Hostile() []hcase {
 		for _, sc := range [][2]uint32{{0, 1<<32 - 1}, {1<<32 - 1, 1}, {1<<32 - 1, 1<<32 - 1}, {1 << 31, 2}, {0, 0}} {
 			add(fmt.Sprintf("READCD %d,%d on %s", sc[0], sc[1], tgt), wire.P(wire.OpOpen, tgt), wire.CD(sc[0], sc[1]))
 		}
+	}
+	// reads around the end of an encrypted image whose last sector is incomplete
+	tsz := uint64(200*2048 + 100)
+	for _, off := range []uint64{tsz - 1, tsz, tsz + 1, tsz + 50, tsz + 1947, tsz + 1948, tsz + 1949, tsz - 100, tsz - 101} {
+		for _, n := range []uint32{1, 100, 2048, 5000} {
+			add(fmt.Sprintf("READCRIT n=%d off=%d on tail.iso", n, off), wire.P(wire.OpOpen, "/PS3ISO/tail.iso"), wire.Crit(n, off))
+			add(fmt.Sprintf("READ n=%d off=%d on tail.iso", n, off), wire.P(wire.OpOpen, "/PS3ISO/tail.iso"), wire.Read(n, off))
+		}
+	}
+	for s := uint32(170); s < 180; s++ {
+		add(fmt.Sprintf("READCD %d,1 on tail.iso", s), wire.P(wire.OpOpen, "/PS3ISO/tail.iso"), wire.CD(s, 1), wire.CD(s, 2))
 	}
 	add("WRITE declared 4GiB-1 with 10 bytes", wire.P(wire.OpCreate, "/w/huge.bin"), wire.Req{Op: wire.OpWrite, Payload: []byte("0123456789"), DeclLen: wire.U32(1<<32 - 1)})
 	add("WRITE declared 2GiB with nothing", wire.Req{Op: wire.OpWrite, DeclLen: wire.U32(1 << 31)})
@@ -640,6 +651,12 @@ func C04(e *Env) {
 	key := tree.Content(45, 16)
 	must(os.WriteFile(filepath.Join(root, "PS3ISO", "enc.iso"), refcrypt.BuildImage(plain, regs, key), 0o644))
 	must(os.WriteFile(filepath.Join(root, "PS3ISO", "enc.dkey"), []byte(hex.EncodeToString(key)), 0o644))
+	must(os.WriteFile(filepath.Join(root, "PS3ISO", "tail.iso"), append(refcrypt.BuildImage(plain, regs, key), tree.Content(46, 100)...), 0o644))
+	must(os.WriteFile(filepath.Join(root, "PS3ISO", "tail.dkey"), []byte(hex.EncodeToString(key)), 0o644))
+	for k := 0; k < 64; k++ {
+		must(os.WriteFile(filepath.Join(root, "PS3ISO", fmt.Sprintf("many%02d.iso", k)), refcrypt.BuildImage(plain[:20*2048], regs[:2], key), 0o644))
+		must(os.WriteFile(filepath.Join(root, "PS3ISO", fmt.Sprintf("many%02d.dkey", k)), []byte(hex.EncodeToString(key)), 0o644))
+	}
 	p3 := bytes.Clone(plain)
 	copy(p3[maskBegin:], wmEnc)
 	copy(p3[maskBegin+16:], key)
@@ -671,6 +688,13 @@ func C04(e *Env) {
 		mutated = append(mutated, hcase{Family: "mutated-session", Name: fmt.Sprintf("#%d", i), Streams: [][]byte{mutate(rng, s)}})
 	}
 	var bursts []hcase
+	{
+		var ss [][]byte
+		for k := 0; k < 64; k++ {
+			ss = append(ss, append(wire.P(wire.OpOpen, fmt.Sprintf("/PS3ISO/many%02d.iso", k)).Bytes(), wire.Read(5000, 3000).Bytes()...))
+		}
+		bursts = append(bursts, hcase{Family: "burst", Name: "64 keyed images opened at once on a cold server #0", Streams: ss})
+	}
 	for i := 0; i < e.Pick(30, 300); i++ {
 		var ss [][]byte
 		for k := 0; k < 40+rng.Intn(80); k++ {
